@@ -549,7 +549,10 @@ class Project(MessageHandler):
 
         Also compute start/end dates for container tasks based on children.
         """
-        for task in self.tasks:
+        # Tasks are stored parents-first; walk them backwards so that an inner container is
+        # rolled up before the container that encloses it (otherwise the outer one is only
+        # marked on the next placement, which never comes if its successors wait for it)
+        for task in reversed(list(self.tasks)):
             if task.leaf():
                 continue  # Skip leaf tasks
 
